@@ -179,7 +179,7 @@ pub fn run(ctx: &Ctx, out: &mut Out) {
                     // graph family: a work budget (the SLG solver does not return on some of them, F32),
                     // and the shape of the reachable cycles refines the classifiers
                     let graph = text.contains("impl G for N");
-                    let shape = if graph { crate::progen::graph_shape(&text, gtext) } else { "" };
+                    let shape = if graph { crate::progen::graph_shape(&text, gtext) } else { crate::progen::auto_shape(&text, gtext) };
                     // (every solve runs under a work budget: an SLG solver that does not return would
                     // otherwise hang the whole check; clean solves of these programs need < 2000 steps)
                     let budget = if graph { Some(if name == "slg" { 2500 } else { 200_000 }) } else { Some(if name == "slg" { 6000 } else { 400_000 }) };
@@ -224,7 +224,9 @@ pub fn run(ctx: &Ctx, out: &mut Out) {
                         }
                         continue;
                     }
-                    let ctx_tag = if graph && mode == "fresh" { format!("{}-{}-{}", name, mode, shape) } else { format!("{}-{}", name, mode) };
+                    // fresh instances: the classifier carries the shape of the cycles the goal reaches
+                    // (graph family: over the nodes; auto-trait programs: over the struct definitions)
+                    let ctx_tag = if mode == "fresh" { format!("{}-{}-{}", name, mode, shape) } else { format!("{}-{}", name, mode) };
                     if graph {
                         out.count(&format!("graph_shape_{}", shape));
                     }
